@@ -5,6 +5,7 @@ import (
 	"go/token"
 	"go/types"
 	"os"
+	"reflect"
 	"sort"
 	"strings"
 
@@ -2887,6 +2888,15 @@ func (c *Ctx) ruleComposer(rule string) {
 			if mc, isMC := st.Val.(*ssa.MakeClosure); isMC {
 				if fnv, ok := mc.Fn.(*ssa.Function); ok && strings.Contains(fnv.Name(), "ComposeFrom") && strings.Contains(fnv.Synthetic, "bound method") {
 					okV = true
+					// ... bound to the payload at hand itself (the event's Payload asserted Gateable), not to a value
+					// made up from its type: a nil *T whose methods have value receivers panics in the generated
+					// wrapper before ComposeFrom runs — inside the pipeline's goroutine
+					if len(mc.Bindings) == 1 {
+						bt := p.NewTerms(nil).Of(mc.Bindings[0])
+						if !(bt.Op == "Extract" && bt.Name == "0" && len(bt.Args) == 1 && bt.Args[0].Op == "Assert" && strings.Contains(bt.Args[0].String(), "Field[Payload]")) {
+							okV = false
+						}
+					}
 				}
 			}
 			r.Check(okV, rule, p.ShortFn(f)+":composeFrom", p.InstrPos(in), "the composer is the payload's own ComposeFrom method value", "Filter.composeFrom is assigned "+p.NewTerms(nil).Of(st.Val).String()+", not the payload's ComposeFrom method value: a wrapper can reorder or alter the group before composition sees it")
@@ -5952,7 +5962,7 @@ func (c *Ctx) ruleKeyBufferFresh(rule string) {
 		}
 		n++
 		vt := p.NewTerms(nil).Of(st.Val)
-		r.Check(vt.Is("Make", "slice"), rule, p.ShortFn(fn)+":key-buffer-fresh:"+nm, p.InstrPos(in), "the rotated "+nm+" is a freshly allocated slice",
+		r.Check(vt.Is("Make", "slice") || isFreshBytes(vt), rule, p.ShortFn(fn)+":key-buffer-fresh:"+nm, p.InstrPos(in), "the rotated "+nm+" is a freshly allocated slice",
 			"the rotated "+nm+" is "+shortStr(vt.String(), 100)+", which can reuse the array the filter held before: that array may be shared with another Filter (or the caller), which reads it under its own lock — a data race between two stock nodes, and the other filter's HMAC key changes without a rotation")
 	})
 	if n < 2 {
@@ -8370,5 +8380,266 @@ func (c *Ctx) ruleUnwrapOnce(rule string) {
 	}
 	if bad == 0 {
 		r.Check(n >= 10, rule, "unwrap-once", "", fmt.Sprintf("%d Elem() calls in package encrypt, none on a loop-carried value", n), fmt.Sprintf("only %d Elem() calls found in package encrypt (>= 10 confirmed by hand)", n))
+	}
+}
+
+// ruleStructKindGuard (C09.kind <fn>:struct-kind): reflect's NumField / Field panic for a value
+// that is not a struct. The field walk of package encrypt is handed whatever a Taggable payload
+// is (a slice type or a named string may carry a Tags method): every NumField / Field call on a
+// reflect.Value (or on its Type()) lies behind a test of that value's Kind() against
+// reflect.Struct in the same function, so a value of another kind is an ERROR, not a panic in
+// the pipeline's goroutine (F56).
+func (c *Ctx) ruleStructKindGuard(rule string) {
+	p, r := c.P, c.R
+	n := 0
+	for _, f := range p.FuncsIn(PkgEncrypt) {
+		if strings.Contains(PkgPathOf(f), "/testing") {
+			continue
+		}
+		flagged := map[ssa.Value]bool{}
+		for _, ci := range callsTo(f, func(nm string, cc *ssa.CallCommon) bool {
+			return nm == "(reflect.Value).NumField" || nm == "(reflect.Value).Field" || nm == "invoke reflect.Type.NumField" || nm == "invoke reflect.Type.Field"
+		}) {
+			call, ok := ci.(*ssa.Call)
+			if !ok {
+				continue
+			}
+			// the reflect.Value concerned: the receiver, or the receiver of the Type() call
+			var val ssa.Value
+			if call.Call.IsInvoke() {
+				if tc, ok := call.Call.Value.(*ssa.Call); ok && calleeName(&tc.Call) == "(reflect.Value).Type" && len(tc.Call.Args) > 0 {
+					val = tc.Call.Args[0]
+				}
+			} else if len(call.Call.Args) > 0 {
+				val = call.Call.Args[0]
+			}
+			if val == nil {
+				continue
+			}
+			n++
+			guarded := false
+			for _, b := range f.Blocks {
+				cond, ts, fs := condOf(b)
+				bo, isB := cond.(*ssa.BinOp)
+				if !isB || (bo.Op != token.EQL && bo.Op != token.NEQ) {
+					continue
+				}
+				kc, kv := bo.X, bo.Y
+				if _, isC := kc.(*ssa.Const); isC {
+					kc, kv = kv, kc
+				}
+				k, isConst := constInt(kv)
+				kcall, isCall := kc.(*ssa.Call)
+				if !isConst || k != int64(reflect.Struct) || !isCall || calleeName(&kcall.Call) != "(reflect.Value).Kind" || len(kcall.Call.Args) == 0 || kcall.Call.Args[0] != val {
+					continue
+				}
+				structSide := ts
+				if bo.Op == token.NEQ {
+					structSide = fs
+				}
+				if edgeDominates(b, structSide, call.Block()) {
+					guarded = true
+				}
+			}
+			if !guarded && !flagged[val] {
+				flagged[val] = true
+				r.Check(false, rule, p.ShortFn(f)+":struct-kind", p.InstrPos(call), "", calleeName(&call.Call)+" is called on a reflect.Value whose Kind() was not found to be reflect.Struct in this function: a Taggable payload of another kind (a slice type or a named string with a Tags method) reaches the field walk and panics inside the pipeline's goroutine instead of failing with an error")
+			}
+		}
+	}
+	if n < 4 {
+		r.Und(rule, "struct-kind:instance-floor", "", fmt.Sprintf("only %d NumField / Field calls found in package encrypt (>= 4 confirmed by hand, all in filterField)", n))
+	}
+	bad := false
+	for _, o := range r.Obls {
+		if o.Rule == rule && strings.HasSuffix(o.Construct, ":struct-kind") && o.Status != "ok" {
+			bad = true
+		}
+	}
+	if !bad && n >= 4 {
+		r.Check(true, rule, "struct-kind", "", fmt.Sprintf("%d NumField / Field calls, each behind a Kind() == Struct test of its value", n), "")
+	}
+}
+
+// ruleRejectCauses (C05.exact RegisterPipeline:failure-causes): RegisterPipeline succeeds EXACTLY when
+// the listed conditions hold, so it fails only for the listed reasons. Every return of a non-nil
+// error in RegisterPipeline is controlled by one of: a failed definition check (validate), a rejected
+// option (getOpts), an existing pipeline that forbids overwriting, a listed node that is not
+// registered, a linking failure, or the structural validator's verdict. A return behind any other
+// condition (a count of formatters, a name pattern, a size limit) rejects definitions the property
+// says are registered.
+func (c *Ctx) ruleRejectCauses(rule string) {
+	p, r := c.P, c.R
+	fn := c.Fn(rule, PkgRoot, "Broker", "RegisterPipeline")
+	if fn == nil {
+		return
+	}
+	// the locked body may live in a helper that holds the Store
+	isStore := func(n string, cc *ssa.CallCommon) bool { return n == "(*eventlogger.graphMap).Store" }
+	fns := []*ssa.Function{fn}
+	if len(callsTo(fn, isStore)) == 0 {
+		for _, ci := range callsTo(fn, func(n string, cc *ssa.CallCommon) bool {
+			sc := cc.StaticCallee()
+			return sc != nil && sc.Blocks != nil && PkgPathOf(sc) == PkgRoot && len(callsTo(sc, isStore)) > 0
+		}) {
+			fns = append(fns, ci.Common().StaticCallee())
+		}
+	}
+	known := map[string]bool{"(eventlogger.Pipeline).validate": true, "eventlogger.getOpts": true, "eventlogger.linkNodes": true, "(*eventlogger.graph).doValidate": true}
+	n, bad := 0, 0
+	for _, f := range fns {
+		tb := p.NewTerms(nil)
+		errIdx, hasErr := returnsError(f.Signature)
+		if !hasErr {
+			continue
+		}
+		for _, ret := range Returns(f) {
+			rv := RetVals(ret)
+			if errIdx >= len(rv) || isNilConst(rv[errIdx]) {
+				continue
+			}
+			// a failure handed up from a helper of the module that was itself examined here
+			if call, ok := rv[errIdx].(*ssa.Call); ok {
+				isHelper := false
+				for _, g := range fns {
+					if call.Call.StaticCallee() == g {
+						isHelper = true
+					}
+				}
+				if isHelper {
+					continue
+				}
+			}
+			n++
+			cause := ""
+			for b := ret.Block(); b != nil && cause == ""; b = b.Idom() {
+				d := b.Idom()
+				if d == nil {
+					break
+				}
+				cond, ts, fs := condOf(d)
+				if cond == nil || !(edgeDominates(d, ts, ret.Block()) || edgeDominates(d, fs, ret.Block())) {
+					continue
+				}
+				onTrue := edgeDominates(d, ts, ret.Block())
+				switch x := cond.(type) {
+				case *ssa.BinOp:
+					xt, yt := tb.Of(x.X), tb.Of(x.Y)
+					src := xt
+					if xt.Is("Const", "nil") {
+						src = yt
+					}
+					if (x.Op == token.NEQ || x.Op == token.EQL) && (xt.Is("Const", "nil") || yt.Is("Const", "nil")) {
+						name := src.Name
+						if src.Op == "Extract" && len(src.Args) == 1 {
+							name = src.Args[0].Name
+						}
+						if known[name] && ((x.Op == token.NEQ) == onTrue) {
+							cause = name
+						} else {
+							cause = "?" + src.String()
+						}
+					} else if x.Op == token.EQL && onTrue && (yt.Is("Const", `"DenyOverwrite"`) || xt.Is("Const", `"DenyOverwrite"`)) {
+						cause = "deny-overwrite"
+					} else {
+						cause = "?" + tb.Of(cond).String()
+					}
+				case *ssa.Extract:
+					t := tb.Of(x)
+					if x.Index == 1 && !onTrue && len(t.Args) == 1 && t.Args[0].Op == "Lookup" && t.Args[0].Args[0].Is("Field", "nodes") {
+						cause = "node-not-registered"
+					} else {
+						cause = "?" + t.String()
+					}
+				default:
+					cause = "?" + tb.Of(cond).String()
+				}
+			}
+			if cause == "" {
+				cause = "?unconditional"
+			}
+			if strings.HasPrefix(cause, "?") {
+				bad++
+				r.Check(false, rule, "RegisterPipeline:failure-causes", p.InstrPos(ret), "", "RegisterPipeline returns an error behind the condition "+shortStr(cause[1:], 160)+", which is none of the reasons the property lists (invalid definition, rejected option, DenyOverwrite of the existing pipeline, unregistered node, linking, structural validation): a definition that meets all listed conditions is refused")
+			}
+		}
+	}
+	if bad == 0 {
+		r.Check(n >= 6, rule, "RegisterPipeline:failure-causes", p.Pos(fn.Pos()), fmt.Sprintf("%d failing returns, each behind one of the six listed causes", n), fmt.Sprintf("only %d failing returns found in RegisterPipeline (6 confirmed by hand)", n))
+	}
+}
+
+// ruleStructArmRecurses (C09.handlers filterField:struct-arm-unconditional): once the field walk has
+// found a field to be a struct, it walks INTO it — on every path from the positive kind test to
+// the next field (or to a successful return) lies the recursive call. What the field's own tag
+// says (public, say) classifies that field, not the fields of the struct it holds.
+func (c *Ctx) ruleStructArmRecurses(rule string) {
+	p, r := c.P, c.R
+	fn := c.Fn(rule, PkgEncrypt, "Filter", "filterField")
+	if fn == nil {
+		return
+	}
+	n := 0
+	for _, b := range fn.Blocks {
+		cond, ts, _ := condOf(b)
+		bo, ok := cond.(*ssa.BinOp)
+		if !ok || bo.Op != token.EQL {
+			continue
+		}
+		k, isC := constInt(bo.Y)
+		if !isC || k != int64(reflect.Struct) {
+			continue
+		}
+		kc, isCall := bo.X.(*ssa.Call)
+		if !isCall || calleeName(&kc.Call) != "(reflect.Value).Kind" {
+			if _, isPhi := bo.X.(*ssa.Phi); !isPhi {
+				continue
+			}
+		}
+		// only the arm whose region contains a recursive call, or none at all but is the field arm (loop body)
+		if innermostHeader(b) == nil {
+			continue
+		}
+		n++
+		hdr := innermostHeader(b)
+		// walk from the arm's entry without passing a block that contains the recursive call
+		hasRec := func(blk *ssa.BasicBlock) bool {
+			for _, in := range blk.Instrs {
+				if ci, ok := in.(*ssa.Call); ok && ci.Call.StaticCallee() == fn {
+					return true
+				}
+			}
+			return false
+		}
+		seen := map[*ssa.BasicBlock]bool{}
+		escape := ""
+		var walk func(blk *ssa.BasicBlock)
+		walk = func(blk *ssa.BasicBlock) {
+			if seen[blk] || escape != "" {
+				return
+			}
+			seen[blk] = true
+			if hasRec(blk) {
+				return
+			}
+			if blk == hdr {
+				escape = "the next field"
+				return
+			}
+			if ret, ok := lastInstr(blk).(*ssa.Return); ok {
+				if rv := RetVals(ret); len(rv) > 0 && isNilConst(rv[len(rv)-1]) {
+					escape = "a successful return at " + p.InstrPos(ret)
+				}
+				return
+			}
+			for _, s := range blk.Succs {
+				walk(s)
+			}
+		}
+		walk(ts)
+		r.Check(escape == "", rule, "filterField:struct-arm-unconditional", p.InstrPos(lastInstr(b)), "a field found to be a struct is always walked into", "a field found to be a struct can be left for "+escape+" without being walked into (the recursive call is skipped on some path): whatever the skipped struct holds — secret and sensitive fields, untagged strings, maps — is forwarded in plaintext")
+	}
+	if n < 1 {
+		r.Und(rule, "struct-arm:instance-floor", "", "no struct-kind arm found in the field loop of filterField")
 	}
 }
